@@ -844,6 +844,12 @@ pub fn exhaustive_family(prop: &str, tier: &str, rng: &mut Rng, shard: (usize, u
                 }
             }
         }
+        "C04" => {
+            // __typename (and other fields) at subscription roots, directly and behind inline fragments
+            for d in subscription_roots() {
+                docs.push(("subscription-roots".to_string(), d.print()));
+            }
+        }
         "C11" => {
             for d in subscription_roots() {
                 docs.push(("subscription-roots".to_string(), d.print()));
